@@ -506,14 +506,14 @@ for (n, what) in [
     # every attach builds the complete management segment (~17 M variables for two attaches, 20 GB, ~19 min): the
     # quick tier runs the two cases that involve the most of the protocol, all slices run in the thorough tier
     _q = n in ("c13_q_mismatch_buffer_same_role", "c13_q_race_detach_after_registration_mismatch")
-    _c13.append(H("cal::conn::" + n, features=CAL, unwindset=_CONN_UW, covers=0, timeout=3600, mem_gb=21,
+    _c13.append(H("cal::conn::" + n, features=CAL, unwindset=_CONN_UW, covers=0, timeout=3600, mem_gb=21, concrete=True,
                   tiers=("quick", "thorough") if _q else ("thorough",),
                   what=what, bounds="unwind 6; one concrete case, 2-3 attach operations"))
 for n in ["c13_t_mismatch_buffer_other_role", "c13_t_mismatch_overflow_other_role", "c13_t_mismatch_chunks_other_role",
           "c13_t_mismatch_segments_other_role", "c13_t_mismatch_channels_same_role",
           "c13_t_race_detach_before_registration_mismatch"]:
     _c13.append(H("cal::conn::" + n, features=CAL, unwindset=_CONN_UW, covers=0, timeout=3600, mem_gb=21, tiers=("thorough",),
-                  what="further concrete cases of the mismatch / race family", bounds="unwind 6; one concrete case"))
+                  concrete=True, what="further concrete cases of the mismatch / race family", bounds="unwind 6; one concrete case"))
 # the unsliced harnesses (symbolic case selection, 3-4 attach operations): 25-40 M variables, thorough tier only
 _c13 += [
         H("cal::conn::c13_second_attach_and_drop_order", features=CAL, unwindset=_CONN_UW, covers=2, timeout=7200, mem_gb=34,
